@@ -14,7 +14,8 @@ case "$PKG" in
   async-graphql) TD="$W/tests" ;;
   async-graphql-parser) TD="$W/parser/tests" ;;
   async-graphql-value) TD="$W/value/tests" ;;
-  async-graphql-axum) TD="$W/integrations/axum/tests" ;;
+  async-graphql-derive) TD="$W/tests"; PKG=async-graphql ;;
+  async-graphql-*) TD="$W/integrations/${PKG#async-graphql-}/tests" ;;
 esac
 mkdir -p "$TD"; cp "$OUT/m${N}_demo.rs" "$TD/mutant_demo_$N.rs"
 # one build cache per queue (SEED_TARGET), seeded from the shared one; never shared between concurrent runs
